@@ -49,8 +49,8 @@ def plan(tier, seed):
             if tier == "quick" and variant[1] and variant[0] == "untouched" and hash(p) % 2:
                 pass
             specs.append({"part": "fixture", "path": p, "touched": variant[0] == "touched", "package": variant[1], "cycles": 2 if tier == "quick" else 3, "tier": tier, "seed": seed})
-    n = 40 if tier == "quick" else 400
-    k = 10 if tier == "quick" else 40
+    n = 40 if tier == "quick" else 1600
+    k = 10 if tier == "quick" else 64
     for i in range(k):
         specs.append({"part": "generated", "n": n // k, "stream": i, "tier": tier, "seed": seed, "cycles": 2 if tier == "quick" else 3})
     specs.append({"part": "excluded", "excluded": [list(x) for x in excluded], "tier": tier, "seed": seed})
